@@ -419,3 +419,50 @@ Definition modelled_write_evlrs_ops : list string :=
    "self.header.number_of_evlrs = len(evlrs)";
    "self.header.start_of_first_evlr = self.dest.tell()";
    "evlrs.write_to(self.dest, as_extended=True, encoding_errors=self.encoding_errors)"]%string.
+
+(* ------------------------------------------------------------------------------------ *)
+(* between reading and writing: operations of the header that re-synchronise / rebuild its VLR list, and edits of   *)
+(* the parsed content of a known record                                                                              *)
+(* ------------------------------------------------------------------------------------ *)
+(* the class name VLRList.get / index / extract compare with: type(vlr).__name__ *)
+Definition kv_class (k : kvlr) : string :=
+  match k with KRaw _ => "VLR"%string | KKnown cls _ _ _ _ => cls | KUnmodelled cls _ => cls end.
+
+(* VLRList.extract(name): the records of that class are taken out; what stays in the list, in order *)
+Definition extract_rest (name : string) (l : list kvlr) : list kvlr :=
+  filter (fun k => negb (String.eqb (kv_class k) name)) l.
+
+(* LasHeader._sync_extra_bytes_vlr (statements on the list: Gen/GenKnown.v sync_list_ops): the records of class
+   sync_extracted_class are taken out, a record generated from the point format (gen; None: no extra dimensions)
+   goes last *)
+Definition sync_eb (l : list kvlr) (gen : option kvlr) : list kvlr :=
+  extract_rest sync_extracted_class l ++ match gen with Some k => [k] | None => [] end.
+
+(* header.vlrs = <iterable>: a new list of the same records, extract(vlrs_setter_extracts), then the above *)
+Definition set_vlrs (l : list kvlr) (gen : option kvlr) : list kvlr :=
+  sync_eb (extract_rest vlrs_setter_extracts l) gen.
+
+(* a method / property setter m of LasHeader applied to a header whose list is l: the list afterwards. The methods
+   that end in _sync_extra_bytes_vlr are listed in Gen/GenKnown.v (call graph of the class, on every run); add / remove
+   of extra dimensions, the point_format setter, set_version_and_point_format (laspy.convert) are among them on the
+   source this was written for; update (LasData.update_header, selection, the points setter) is not *)
+Definition header_op (m : string) (l : list kvlr) (gen : option kvlr) : list kvlr :=
+  if String.eqb m "vlrs" then set_vlrs l gen
+  else if existsb (String.eqb m) resync_methods then sync_eb l gen
+  else l.
+
+Definition modelled_sync_list_ops : list string :=
+  [String.append "self._vlrs.extract('" (String.append sync_extracted_class "')"); "self._vlrs.append(eb_vlr)"%string].
+Definition modelled_vlrs_setter_ops : list string :=
+  ["self._vlrs = VLRList(vlrs)"%string;
+   String.append "self.vlrs.extract('" (String.append vlrs_setter_extracts "')");
+   "self._sync_extra_bytes_vlr()"%string].
+
+(* the content of a parsed record replaced through its public attributes (.string, .strings, .lookups, .doubles,
+   .geo_keys / .geo_keys_header, .parsed_record, .extra_bytes_structs, .record_data of a LasZipVlr): the record keeps
+   its class, identifiers and description; nothing of the payload it was parsed from is kept *)
+Definition set_content (k : kvlr) (c : content) : kvlr :=
+  match k with KKnown cls u r d _ => KKnown cls u r d c | _ => k end.
+
+(* what the next reader hands out for a record as it is now *)
+Definition reread (k : kvlr) : result kvlr := do v <- kv_record k; Ok (vlr_factory v).
